@@ -35,7 +35,9 @@ def build(S, tier, seed):
 def _battery(S, r, o):
     sp = [s for s in scenarios.SPELLINGS if s[0] in (
         'lf', 'ld', 'ld/', 'ld//', 'dl', 'ld/deep', 'd', 'd/')]
-    return scenarios.put_spellings_battery(S.interp.repo, sp)
+    return scenarios.merge_batteries(
+        scenarios.put_spellings_battery(S.interp.repo, sp),
+        scenarios.put_xdev_battery(S.interp.repo, 'move'))
 
 
 REPLAYERS = {'': _battery}
